@@ -157,11 +157,11 @@ Proof.
   intros HE. induction is as [|[n merge] rest IH]; intros base my.
   - rewrite imports_go_nil. mono_tac.
   - rewrite imports_go_cons. apply mono_bind; [apply mono_imps_get|]. intros [i|].
-    + destruct (is_evaluating i); [|apply IH]. apply mono_bind; [apply mono_err|intros _; apply IH].
+    + destruct (is_evaluating i); [|destruct (is_value i); apply IH]. apply mono_bind; [apply mono_err|intros _; apply IH].
     + apply mono_bind; [apply mono_call|]. intros failed. apply mono_bind; [apply mono_emit|intros _].
       destruct (if failed then LoadFail else match alookup n (w_envs W) with Some l => l | None => LoadFail end).
-      * apply mono_bind; [apply mono_err|intros _; apply IH].
-      * apply mono_bind; [apply mono_err|intros _; apply IH].
+      * apply mono_bind; [apply mono_err|intros _]. apply mono_bind; [apply mono_imps_set|intros _; apply IH].
+      * apply mono_bind; [apply mono_err|intros _]. apply mono_bind; [apply mono_imps_set|intros _; apply IH].
       * apply mono_bind; [apply HE|]. intros v. apply mono_bind; [apply mono_imps_set|intros _; apply IH].
 Qed.
 
